@@ -66,6 +66,7 @@ SOLVE = st.fixed_dictionaries({
 PBUILD = st.fixed_dictionaries({"op": st.just("pbuild"), "t": st.integers(0, 3)})
 PSOLVE = st.fixed_dictionaries({"op": st.just("psolve"), "t": st.integers(0, 3)})
 SYSVEL = st.fixed_dictionaries({"op": st.just("sysvel")})
+FILTER = st.fixed_dictionaries({"op": st.just("filter"), "t": st.integers(0, 3)})
 
 
 def build_kwargs(step):
@@ -137,6 +138,8 @@ class History:
         self.last_build = {}
         self.last_solve = {}
         self.solve_basis = {}
+        self.build_filt = {}
+        self.filtered = set()       # frames whose vertices were smoothed by Frame.filter_edges("SG") (frame DATA changed)
         self.pbasis = {}            # t -> (build step, solve step) in force when build_pressure_matrix(t) was called
         self.psolved = {}
         self.solve_order = []
@@ -156,12 +159,16 @@ class History:
 
     # ---- reference
     def fresh_result(self, t, want_pressure):
-        b, s = (self.pbasis[t] if want_pressure else self.solve_basis[t])
+        b, s, filt_build, filt_solve = (self.pbasis[t] if want_pressure else self.solve_basis[t])
         # the reference runs in the numpy error state forsys sets at import; whatever state the object under test
         # has left behind is restored afterwards (a process-wide leak is part of the history being tested)
         with np.errstate(all="raise"):
             S2, f2 = build_forsys(self.p)
+            for k in sorted(filt_build):
+                call(f2.frames[k].filter_edges, "SG")
             call(f2.build_force_matrix, **build_kwargs(dict(b, t=t)))
+            for k in sorted(set(filt_solve) - set(filt_build)):
+                call(f2.frames[k].filter_edges, "SG")
             call(f2.solve_stress, when=t, **solve_kwargs(s, len(f2.frames[t].internal_big_edges)))
             if want_pressure:
                 call(f2.build_pressure_matrix, when=t)
@@ -196,7 +203,7 @@ class History:
         if op == "sysvel":
             return step
         pools = {"build": list(range(self.n)), "solve": sorted(self.last_build), "pbuild": sorted(self.last_solve),
-                 "psolve": sorted(self.pbasis)}
+                 "psolve": sorted(self.pbasis), "filter": list(range(self.n))}
         pool = pools[op]
         if not pool:
             return None
@@ -218,10 +225,15 @@ class History:
                 prev = self.last_build.get(step["t"])
                 call(self.fsys.build_force_matrix, **build_kwargs(step))
                 self.last_build[step["t"]] = {k: step[k] for k in ("op", "limit", "fit", "ignore_four")}
+                self.build_filt[step["t"]] = frozenset(self.filtered)
             elif op == "sysvel":
                 call(self.fsys.get_system_velocity_per_frame)
                 for t in range(self.n):
                     self.last_build[t] = dict(SYSVEL_BUILD)
+                    self.build_filt[t] = frozenset(self.filtered)
+            elif op == "filter":
+                call(self.fsys.frames[step["t"]].filter_edges, "SG")
+                self.filtered.add(step["t"])
             elif op == "solve":
                 t = step["t"]
                 if t in self.last_solve and (self.last_solve[t] != {k: v for k, v in step.items() if k != "t"}):
@@ -231,7 +243,8 @@ class History:
                 self.solve_order.append(t)
                 call(self.fsys.solve_stress, when=t, **solve_kwargs(step, self.n_internal(t)))
                 self.last_solve[t] = {k: v for k, v in step.items() if k != "t"}
-                self.solve_basis[t] = (dict(self.last_build[t]), dict(self.last_solve[t]))
+                self.solve_basis[t] = (dict(self.last_build[t]), dict(self.last_solve[t]), self.build_filt[t],
+                                       frozenset(self.filtered))
             elif op == "pbuild":
                 t = step["t"]
                 call(self.fsys.build_pressure_matrix, when=t)
@@ -247,7 +260,8 @@ class History:
             try:
                 if op == "solve":
                     self.last_solve[step["t"]] = {k: v for k, v in step.items() if k != "t"}
-                    self.solve_basis[step["t"]] = (dict(self.last_build[step["t"]]), dict(self.last_solve[step["t"]]))
+                    self.solve_basis[step["t"]] = (dict(self.last_build[step["t"]]), dict(self.last_solve[step["t"]]),
+                                                   self.build_filt[step["t"]], frozenset(self.filtered))
                     self.fresh_result(step["t"], False)
                 elif op == "psolve":
                     self.fresh_result(step["t"], True)
@@ -397,6 +411,48 @@ class ForSysMachine(RuleBasedStateMachine):
         self._do(dict(b, t=t, fit="taubinSVD"))
         if not self.h.dead:
             self._do(dict(s, t=sorted(self.h.last_build).index(t), method=None))
+
+    @rule(step=FILTER)
+    def filter_edges(self, step):
+        """Frame.filter_edges('SG') moves the vertices of a frame in place: the frame DATA changes."""
+        self._do(step)
+
+    @rule(s=SOLVE)
+    def refilter_rebuild_same_options(self, s):
+        """Smooth a frame that has been built already, build it again with exactly the same options and solve: the
+        second build must see the moved vertices."""
+        if self.h is None or self.h.dead or not self.h.last_build:
+            return
+        pool = sorted(self.h.last_build)
+        t = pool[s["t"] % len(pool)]
+        b = dict(self.h.last_build[t], t=t)
+        if b.get("op") != "build" or "fit" not in b:
+            return
+        CTX.count("rule:refilter_rebuild_same_options")
+        self._do({"op": "filter", "t": t})
+        if not self.h.dead:
+            self._do(b)
+        if not self.h.dead:
+            self._do(dict(s, t=sorted(self.h.last_build).index(t)))
+
+    @rule(s=SOLVE)
+    def resolve_then_pressure(self, s):
+        """Solve a frame that already has pressures again with other options (no rebuild of the force matrix) and redo
+        the pressure step: the new pressures must follow the new tensions."""
+        if self.h is None or self.h.dead or not self.h.pbasis:
+            return
+        t = sorted(self.h.pbasis)[s["t"] % len(self.h.pbasis)]
+        CTX.count("rule:resolve_then_pressure")
+        # make sure the new solve really differs from the one the pressures were computed from
+        prev = self.h.last_solve.get(t, {})
+        if prev.get("b_matrix") == s["b_matrix"] and prev.get("method") == s["method"]:
+            s = dict(s, b_matrix=("velocity" if prev.get("b_matrix") is None else None))
+        self._do(dict(s, t=sorted(self.h.last_build).index(t)))
+        if self.h.dead:
+            return
+        self._do({"op": "pbuild", "t": sorted(self.h.last_solve).index(t)})
+        if not self.h.dead and t in self.h.pbasis:
+            self._do({"op": "psolve", "t": sorted(self.h.pbasis).index(t)})
 
     @rule(step=PBUILD)
     def pressure_round(self, step):
